@@ -733,3 +733,27 @@ PROPS["C06"] = dict(
           "result for the valid programs; open descriptors do not grow between round 5 and round 45."),
     assumptions=["Linux mmap code-memory back end (HAVE_CODEMEM_MMAP)"],
 )
+
+PROPS["C20"] = dict(
+    variant="plain",
+    sources=ENGINE + ["props/c20_extension.c"],
+    level="exploration",
+    technique="model-based property testing (rapidcheck): generated registration histories of extension opcode sets and rule sets, a model predicting the rule that must be chosen, instrumented application rules and emulation functions, C interpretation of generated mixed programs as result oracle",
+    level_text=("generated registrations of 1..4 extension opcode sets (seven 16-bit opcodes whose names are unrelated to, prefixes of, or "
+                "extensions of built-in names) and up to 8 rule sets for sse/mmx with generated required flags and partial opcode coverage, "
+                "within the targets' free rule-set slots; per case two built-in programs compared before/after (code bytes and results) and "
+                "three mixed programs emulated, compiled with generated flags, checked against the rule-choice model and a C interpretation. "
+                "Sampled, not exhaustive"),
+    level_note=("trusted base: the model of 'most recently registered qualifying rule set' and the C interpretation in props/c20_extension.c; "
+                "rule sets beyond a target's capacity (ORC_N_RULE_SETS) are not registered - the statement quantifies up to the capacity; "
+                "extension rules are written with the public orc_sse_emit_*/orc_mmx_emit_* macros as examples/volscale.c does"),
+    stages=[
+        dict(name="rc-registration-histories", mode="rc", quick=dict(cases=250000, max_size=500, budget=45), thorough=dict(cases=2000000, max_size=700, budget=900)),
+    ],
+    rule=("a case is one process: (registration history, two built-in programs, three mixed programs with target and flags). Non-trivial: at "
+          "least one extension set registered and one mixed program checked. Oracle: built-in machine code and results unchanged by the "
+          "registration; emulation of mixed programs equals the C interpretation and calls the application's emulation functions; compile "
+          "success iff the model finds a qualifying rule for every extension instruction; every invoked application rule is the one the "
+          "model names; native and fallback results equal the C interpretation."),
+    assumptions=[],
+)
